@@ -54,7 +54,7 @@ var ghostBigOf func(b []byte) int
 //@ type SplitTracker
 //@   guards mu: assignedSplits, knownSplits, ds.SortedMap.*
 //@   lockinv mu: stInv(self)
-//@ define knownOK(sm) := sm != nil &&
+//@ define knownOK(sm) := sm != nil && len(sm.list) == len(sm.m) &&
 //@        forall(func(kk_ string) bool { return has(sm.m, kk_) == exists(0, len(sm.list), func(jj_ int) bool { return sm.list[jj_] == kk_ }) }) &&
 //@        forall(0, len(sm.list), func(ii_ int) bool { return forall(0, ii_, func(jj_ int) bool { return sm.list[jj_] != sm.list[ii_] }) }) &&
 //@        (sm.isSorted ==> forall(0, len(sm.list), func(ii_ int) bool { return forall(0, ii_, func(jj_ int) bool { return sm.list[jj_] <= sm.list[ii_] }) }))
